@@ -12,8 +12,8 @@ pub fn cps(s: &str) -> Value {
 pub const PLAIN: &[&str] = &["a", "b", "c", "d", "e", "g", "h", "x1", "y", "z9", "st", "Q"];
 pub const KEYWORDISH: &[&str] = &["and", "andy", "or", "c", "neg", "s", "ac", "v", "f", "imp", "xor", "iff", "0", "10", "a2", "A", "2", "negx", "orb", "cv", "sac"];
 /// labels that need quotes; those with operator characters trip the biodivine variable-name check (known finding F9)
-pub const QUOTED_SAFE: &[&str] = &["a b", "p.q", "m,n", "x y z", "1.5", "a_b", "s(", ")(", "#", "a-b"];
-pub const QUOTED_OPS: &[&str] = &["x(y", "a&b", "p|q", "!n", "u=v", "i<j", "k>l", "a^b", "q?r", "t:u"];
+pub const QUOTED_SAFE: &[&str] = &["a b", "p.q", "m,n", "x y z", "1.5", "a_b", "#", "a-b", "s.", "c,v"];
+pub const QUOTED_OPS: &[&str] = &["x(y", "a&b", "p|q", "!n", "u=v", "i<j", "k>l", "a^b", "q?r", "t:u", "s(", ")("];
 
 pub fn needs_quotes(l: &str) -> bool {
     l.is_empty() || !l.chars().all(|c| c.is_ascii_alphanumeric())
@@ -76,7 +76,7 @@ pub fn plain_layout() -> Layout {
 }
 
 fn fmt_formula(a: &Ast, labels: &[String], lay: &Layout, k: &mut usize) -> String {
-    let mut comma = |k: &mut usize| -> String {
+    let comma = |k: &mut usize| -> String {
         let (x, y) = lay.comma[*k % lay.comma.len()];
         *k += 1;
         format!("{},{}", x, y)
